@@ -15,7 +15,13 @@ from puresnmp.adt import (
     V3Flags,
 )
 from puresnmp.credentials import V3, Credentials
-from puresnmp.pdu import PDU, GetRequest
+from puresnmp.pdu import (
+    PDU,
+    BulkGetRequest,
+    GetRequest,
+    InformRequest,
+    SetRequest,
+)
 from puresnmp.plugins.mpm import AbstractEncodingResult, MessageProcessingModel
 from puresnmp.plugins.security import SecurityModel
 from puresnmp.plugins.security import create as create_sm
@@ -29,7 +35,12 @@ def is_confirmed(pdu: PDU) -> bool:
     Return True if the given PDU instance expects a response.
     """
     # XXX TODO This might be doable cleaner with subclassing in puresnmp.pdu
-    return isinstance(pdu, GetRequest)
+    # The "confirmed class" of RFC 3411 section 2.8: GetRequest,
+    # GetNextRequest (a subclass of GetRequest), GetBulkRequest, SetRequest
+    # and InformRequest.
+    return isinstance(
+        pdu, (GetRequest, BulkGetRequest, SetRequest, InformRequest)
+    )
 
 
 TV3SecModel = SecurityModel[PlainMessage, Union[PlainMessage, EncryptedMessage]]
